@@ -3,7 +3,7 @@ from props import _proto
 
 ID = "C17"
 IMPORTS = ["CaresProps.C17"]
-LEAN_TARGETS = ["CaresProps.C17", "driver_proto"]
+LEAN_TARGETS = ["CaresProps.C17", "driver_proto", "driver_sim"]
 THEOREMS = [
     "Cares.C17.timeval_is_set_ok",
     "Cares.C17.addr_equal_unspec_ok",
@@ -61,7 +61,16 @@ EXPLANATION = ("Lean theorems over all histories of (apply | validate | time adv
                "per clause of the property (see CaresProps/C17.lean), invariant proved by induction over the event fold. "
                "Tie: direct calls of ares_cookie_apply / ares_cookie_validate against the compiled model, plus a python "
                "reference client that evaluates each clause on the implementation's outputs.")
-STREAMS = [_proto.cookie_stream()]
+def _channel_streams():
+    # the call sites (ares_conn_query_write / process_answer in ares_process.c) are outside the pure cookie functions:
+    # whole-channel streams with UDP -> TCP fallbacks (TC, repeated BADCOOKIE) and client-cookie rotation
+    import simlib
+    import simprops
+    return [simlib.storm_stream(simprops.mon_c17, quick_n=150), simlib.cookie_rotate_stream(simprops.mon_c17, quick_n=150)]
+
+
+STREAMS = [_proto.cookie_stream()] + _channel_streams()
+DRIVER_MODULES = list(globals().get("DRIVER_MODULES", [])) + ["Driver.SimMain"]
 RULE = ("cases are generated from VERIF_SEED (server behaviours none/valid/changed/wrong-client/BADCOOKIE/disappearing/"
         "reappearing support/odd lengths, source-address changes incl. unknown address, time advances across 120 s / 300 s / "
         "1 day with whole-second clocks); a case is non-trivial when at least one cookie with a server part was put on the "
